@@ -73,8 +73,8 @@ VARIANTS = [
      "old": '        if flavor == "legacy":\n            return self.serialize(val)\n        return int(val)',
      "new": "        return int(val)"},
     {"name": "R2 embedded LLSD written as notation, parsed as XML", "file": SCHEMA, "expect": "C20.R2",
-     "old": 'return llsd.format_xml(val).split(b">", 1)[1].decode("utf8") + "\\n|"',
-     "new": 'return llsd.format_notation(val).decode("utf8") + "\\n|"'},
+     "old": 'xml = llsd.format_xml(val).split(b">", 1)[1].decode("utf8")',
+     "new": 'xml = llsd.format_notation(val).decode("utf8")'},
     # ------------------------------------------------------------------ R2 preserving
     {"name": "P R2 temporary in SchemaDate.serialize", "file": SCHEMA, "expect": "silent",
      "old": "        return str(calendar.timegm(val.utctimetuple()))",
@@ -556,7 +556,7 @@ VARIANTS += [
 
 # ---------------------------------------------------------------------- round 7
 MSGHANDLER = "hippolyzer/lib/base/message/message_handler.py"
-_LLSD_SER_OLD = "        # Don't include the XML header\n        return llsd.format_xml(val).split(b\">\", 1)[1].decode(\"utf8\") + \"\\n|\"\n"
+_LLSD_SER_OLD = "        # Don't include the XML header\n"
 _LLSD_DES_OLD = "        return llsd.parse_xml(val.partition(\"|\")[0].encode(\"utf8\"))\n"
 _UNDEF = "<llsd><undef /></llsd>"
 
@@ -649,9 +649,44 @@ VARIANTS += [
      "new": "    owner_id: Optional[UUID] = schema_field(SchemaUUID, default=None, llsd_only=True)\n    version:"},
     {"name": "P R3 keyword order of an llsd_only field", "file": INV, "expect": "silent",
      "old": "schema_field(SchemaInt, default=VERSION_NONE, llsd_only=True)", "new": "schema_field(SchemaInt, llsd_only=True, default=VERSION_NONE)"},
-    {"name": "P R2 metadata written with XML character references", "file": SCHEMA, "expect": "silent",
-     "old": 'return llsd.format_xml(val).split(b">", 1)[1].decode("utf8") + "\\n|"',
-     "new": 'xml = llsd.format_xml(val).split(b">", 1)[1].decode("utf8")\n'
-            '        xml = xml.replace("|", "&#124;").replace("\\n", "&#10;").replace("\\t", "&#9;").replace("\\r", "&#13;")\n'
-            '        return xml + "\\n|"'},
+    {"name": "R2 metadata XML written verbatim again (revert of D46)", "file": SCHEMA, "expect": "C20.R2",
+     "old": '        xml = xml.replace("|", "&#124;").replace("\\n", "&#10;").replace("\\t", "&#9;").replace("\\r", "&#13;")\n',
+     "new": ""},
+    {"name": "R2 metadata escape forgets the tab", "file": SCHEMA, "expect": "C20.R2",
+     "old": '.replace("\\n", "&#10;").replace("\\t", "&#9;").replace("\\r", "&#13;")',
+     "new": '.replace("\\n", "&#10;").replace("\\r", "&#13;")'},
+    {"name": "P R2 metadata escape as one expression on the return", "file": SCHEMA, "expect": "silent",
+     "old": '        xml = xml.replace("|", "&#124;").replace("\\n", "&#10;").replace("\\t", "&#9;").replace("\\r", "&#13;")\n        return xml + "\\n|"',
+     "new": '        return xml.replace("\\r", "&#13;").replace("\\t", "&#9;").replace("\\n", "&#10;").replace("|", "&#124;") + "\\n|"'},
+]
+
+# ---------------------------------------------------------------------- audit round (anchored on the FIXED text: the
+# breaking ones are inapplicable until the fix: commits are in /repo)
+WEARABLES = "hippolyzer/lib/base/wearables.py"
+_AIS_GUARD_FIXED = '            if val.get("type") == AssetType.LINK and "asset_id" in val:\n'
+_PARENT_DEFAULT_FIXED = '        obj_dict.setdefault("parent_id", None)\n'
+
+VARIANTS += [
+    {"name": "R10 AIS post-processing indexes the optional type again (revert)", "file": INV, "expect": "C20.R10",
+     "old": _AIS_GUARD_FIXED, "new": '            if val["type"] == AssetType.LINK:\n'},
+    {"name": "P R10 optional type read into a local, presence test kept", "file": INV, "expect": "silent",
+     "old": _AIS_GUARD_FIXED,
+     "new": '            node_type = val.get("type")\n            if "asset_id" in val and node_type == AssetType.LINK:\n'},
+    {"name": "R8 parentless nodes are not defaulted by the reader again (revert)", "file": INV, "expect": "C20.R8",
+     "old": _PARENT_DEFAULT_FIXED, "new": ""},
+    {"name": "P R8 parent_id defaulted by an explicit membership test", "file": INV, "expect": "silent",
+     "old": _PARENT_DEFAULT_FIXED,
+     "new": '        if "parent_id" not in obj_dict:\n            obj_dict["parent_id"] = None\n'},
+    {"name": "R2 line pattern back to Unicode whitespace (revert)", "file": SCHEMA, "expect": "C20.R2",
+     "old": "(\\s+([^\\t\\r\\n]+))?$', re.ASCII)", "new": "(\\s+([^\\t\\r\\n]+))?$')"},
+    {"name": "R2 line strip back to Unicode whitespace (revert)", "file": INV, "expect": "C20.R2",
+     "old": '        line = line.strip(" \\t\\r\\n\\x0b\\x0c")\n', "new": "        line = line.strip()\n"},
+    {"name": "P R2 ASCII flag spelt re.A as a keyword", "file": SCHEMA, "expect": "silent",
+     "old": "(\\s+([^\\t\\r\\n]+))?$', re.ASCII)", "new": "(\\s+([^\\t\\r\\n]+))?$', flags=re.A)"},
+    {"name": "R15 wearable reader skips blank lines before the name again (revert)", "file": WEARABLES, "expect": "C20.R15",
+     "old": "        # The name is the line right after the version, and it may be empty\n        name = reader.readline().rstrip()\n",
+     "new": "        cls._skip_to_next_populated_line(reader)\n        name = reader.readline().rstrip()\n"},
+    {"name": "P R15 wearable name line through a local", "file": WEARABLES, "expect": "silent",
+     "old": "        # The name is the line right after the version, and it may be empty\n        name = reader.readline().rstrip()\n",
+     "new": "        name_line = reader.readline()\n        name = name_line.rstrip()\n"},
 ]
